@@ -899,17 +899,26 @@ def run_writer(case, sched):
                     r = td.consolidate(num_threads=nt)
                 elif op == "consolidate-file":
                     r = td.consolidate(os.path.join(tmp, "store.bin"), num_threads=nt)
+                elif op == "to-consolidated":
+                    # public path into the multithreaded apply: a consolidated tensordict (device None) cast in place
+                    td = td.consolidate()
+                    r = td.to("cpu", num_threads=nt, inplace=True)
             o["status"] = "ok"
             o["never_run"] = s.never_run
             o["nran"] = len(s.ran)
             o["ran"] = list(s.ran)
             o["root_keys"] = list(r.keys())
-            if op.startswith("consolidate"):
+            if op == "to-consolidated":
+                o.update({"ret": "self" if r is td else "new", "tree": obs_tree(r), "devices": sorted({str(r.device)} | {str(v.device) for v in r.values(True, True)}),
+                          "key_order": [list(k) if isinstance(k, tuple) else [k] for k in r.keys(True, True)]})
+            elif op.startswith("consolidate"):
                 try:
                     o["storage"] = r._consolidated["storage"][: 48 * len(tree_leaves(spec))].view(torch.int64).tolist()
                 except Exception as e:  # noqa: BLE001
                     o["storage"] = "raise " + type(e).__name__
-            if op.startswith("consolidate"):
+            if op == "to-consolidated":
+                pass
+            elif op.startswith("consolidate"):
                 o.update({"ret": "new", "tree": obs_tree(r), "src": obs_tree(td),
                           "key_order": [list(k) if isinstance(k, tuple) else [k] for k in r.keys(True, True)],
                           "one_storage": len({v.untyped_storage().data_ptr() for v in r.values(True, True)}) <= 1,
@@ -993,7 +1002,7 @@ def check_writers(R):
     for ci in range(ncases):
         nleaves = rng.choice([1, 2, 3, 3, 4, 4, 5, 6])
         spec = gen_tree(rng, nleaves, depth=2)
-        op = rng.choice(["memmap_", "memmap_", "memmap", "memmap_like", "consolidate", "consolidate", "consolidate-file"])
+        op = rng.choice(["memmap_", "memmap_", "memmap", "memmap_like", "consolidate", "consolidate", "consolidate-file", "to-consolidated"])
         case = {"op": "writer", "writer": op, "spec": spec, "prefix": rng.random() < 0.6, "threads": rng.choice([2, 3]),
                 "single_threads": rng.choice([0, 1]), "preexisting": False}
         if op in ("memmap_", "memmap") and rng.random() < 0.12:
@@ -1012,7 +1021,7 @@ def check_writers(R):
             outcomes[json.dumps(strip_w(mt), sort_keys=True)] = (order, eager)
             if mt["status"] == "ok" and st["status"] == "ok" and mt["key_order"] != st["key_order"]:
                 R.count("writer:key-order-differs-from-single-thread (not judged)")
-            if mt["status"] == "ok" and not case.get("preexisting") and len(wlines) < (4000 if R.quick else 40000) and (not op.startswith("consolidate") or isinstance(mt.get("storage"), list)):
+            if mt["status"] == "ok" and op != "to-consolidated" and not case.get("preexisting") and len(wlines) < (4000 if R.quick else 40000) and (not op.startswith("consolidate") or isinstance(mt.get("storage"), list)):
                 line, want = writer_model_line(case, (order, eager), mt)
                 wlines.append(line)
                 wobs.append((dict(case, schedule={"order": order, "eager": eager}), want))
